@@ -1,11 +1,11 @@
 (* C08 over whole histories of the specification world (every storage a plain
    map): what all storages hold at the end, everything handed back and
    everything destroyed along the way are, as multisets of values, what was held
-   at the start plus everything moved in.  Histories without join operations
-   (joins have their own cell-level theorems); components registered before
-   use. *)
+   at the start plus everything moved in.  Joins included: what a join hands
+   out for good are the values its drain members removed.  Components
+   registered before use. *)
 From SV Require Import Base.ListX Alloc.LifeProps Store.Raw Store.Masked Store.StoreInv Store.Bag Store.Ledger World.Env World.Join World.JoinPres
-  World.SopLedger World.WorldLedger World.StoreSim World.EnvSim World.WorldSpec World.Micro World.NoStuck.
+  World.SopLedger World.WorldLedger World.JoinLedger World.StoreSim World.EnvSim World.WorldSpec World.Micro World.NoStuck.
 From Coq Require Import Sorting.Permutation.
 
 Definition resolved (w : sworld) (so : sop) : option (mstore * entity) :=
@@ -38,12 +38,12 @@ Definition op_rets (w : sworld) (o : op) (cs : list N) (out : wout) : list N :=
   | OCreateDropped k => comps_rets (s_env w) (l_view (s_life (fst (s_create false w (hd_choice cs))))) (snd (s_create false w (hd_choice cs))) k
   | OEBuild _ k => comps_rets (s_env w) (l_view (s_life (fst (s_create true w (hd_choice cs))))) (snd (s_create true w (hd_choice cs))) k
   | OStore so => match resolved w so with Some _ => sop_rets so out | None => [] end
+  | OJoin _ ms => match out with WJoin j => jout_rets ms j | _ => [] end
   | _ => []
   end.
 
 Definition ledger_op (o : op) : bool :=
   match o with
-  | OJoin _ _ => false
   | OQuiet (SInsert _ _ _) | OQuiet (SRemove _ _) => true
   | OQuiet _ => false
   | _ => true
@@ -97,7 +97,7 @@ Ltac solve_sop :=
 Theorem sstep_core_ledger w o cs : WInv w -> op_regs_ok (s_env w) o = true -> ledger_op o = true ->
   estep_ok (s_env w) (s_env (fst (sstep_core w o cs))) (op_ins w o) (op_rets w o cs (snd (sstep_core w o cs))).
 Proof.
-  intros [[HE Hst] HP Hi] Hr Hl.
+  intros HW Hr Hl. pose proof (sstep_core_ok w o cs (WI_e _ HW) Hr) as [_ Hst']. destruct HW as [[HE Hst] HP Hi].
   assert (forall pend k, comps_ok (s_env w) k = true ->
             let '(w1, e) := s_create pend w (hd_choice cs) in
             estep_ok (s_env w) (s_env (s_insert_comps w1 e k)) (comps_ins (s_env w) k)
@@ -160,6 +160,11 @@ Proof.
           apply estep_refl; exact HP]).
     + apply (quiet_ledger (s_env w) (l_view (s_life w)) (s_hs w) (SInsert sid h v) ent ms HP I Es Eh).
     + apply (quiet_ledger (s_env w) (l_view (s_life w)) (s_hs w) (SRemove sid h) ent ms HP I Es Eh).
+  - (* a join *)
+    pose proof (env_join_ledger (s_env w) (l_view (s_life w)) (eids_of (l_entities (s_life w))) (s_hs w) jk jms HP) as X.
+    destruct (env_join (s_env w) (l_view (s_life w)) (eids_of (l_entities (s_life w))) (s_hs w) jk jms) as [e' j].
+    cbn [fst snd s_with_env s_env] in *. specialize (X Hst').
+    destruct j; cbn [jout_wout jout_rets] in *; exact X.
   - (* change sets are outside the world *)
     pose proof (env_csop_pres (fun e' => estep_ok (s_env w) e' [] [])) as X.
     assert (forall e' k m, estep_ok (s_env w) e' [] [] -> estep_ok (s_env w) (cs_put e' k m) [] []) as Hcs.
